@@ -179,6 +179,43 @@ CHECKS = {
         "destructor is covered by the pinned suite only; arena visit lock and os_list_count are not modelled.",
    technique="Coq inductive invariant with ghost holder on a small-step model + deterministic-scheduler oracle on the real code",
    design="3/C09"),
+ "C18": dict(
+   text="Machine-checked proof (Coq 8.16.1) over executable Gallina models of mi_segment_commit_mask / schedule_purge / try_purge / purge, "
+        "_mi_os_purge_ex and the arena purge scheduler (mi_arena_schedule_purge / try_purge, mi_arenas_try_purge as repaired by two fix: commits) with "
+        "time as an input: nothing is purged before purge_expire, exactly the runs of the purge mask are purged at/after it by a non-forced call, delay "
+        "0 purges at once, delay<0 never issues a system call, expired arenas are purged by non-forced passes and the global/per-arena expiry fields "
+        "stay consistent for every history (C18_expiry_fields_consistent). Tie: function-level differential on the real static functions under an OS "
+        "shim + virtual clock (~54k records quick / 517k thorough: masks, bitmaps, expiry fields, system calls and page states equal) and API "
+        "workloads for purge_delay in {-1,0,5,10} x purge_decommits in {0,1}, with the two histories of the repaired defect as regression scenarios.",
+   note="Arena system-call lists are proved at bitmap level (purge' = purge AND inuse); multi-pass eventual purging is given as single-pass progress "
+        "lemmas (statements left open in Proofs/OsOpen.v). Sequential arena execution; release build (decommit = madvise only). The 'ordinary "
+        "activity' that purges inside a segment is a page free (an allocation re-using scheduled slices postpones the expiry by design).",
+   technique="Coq proof over Gallina models with time as input + OS/clock shim differential + virtual-time workloads",
+   design="3/C18"),
+ "C11": dict(
+   text="Machine-checked proof (Coq): _mi_os_free_ex is the inverse of _mi_os_alloc/_mi_os_alloc_aligned(/_at_offset) on a ghost kernel for all sizes, "
+        "alignments and all kernel address choices incl. the over-allocate-and-trim path (after the repair of the never-unmapping defect), "
+        "_mi_thread_data_collect frees every cached block, and a forced arena collect leaves no scheduled free block. Tie: OS round trips under the "
+        "shim (ledger before/after identical, system calls = model) and whole-API workloads repeated 4-6 times in three arena configurations (no "
+        "growth of mapped/committed bytes, nothing left outside arenas, thread-data cache empty).",
+   note="NAMED PARTIAL: the whole-workload fixpoint over the segment layer (workload_fixpoint) is observed by the repetition workloads, not proved. "
+        "munmap refusals are excluded by hypothesis (C07); the at_offset theorem needs size, alignment < 2^62; RSS itself is kernel behaviour (the "
+        "ledger follows the system calls). Known finding huge-alloc-reserves-arena (allocations > 64 MiB reserve a fresh arena each).",
+   technique="Coq proof over ghost-kernel model + shim ledger differential + repetition workloads",
+   design="3/C11"),
+ "C13": dict(
+   text="Machine-checked proof (Coq) of the commit/purge clauses: conservative rounding stays inside and liberal rounding covers the range (segment "
+        "commit masks and OS page alignment), purge_mask is a subset of commit_mask under commit / ensure_committed / purge / schedule_purge / "
+        "try_purge, ensure_committed clears pending purge bits and leaves the range accessible, purges only touch scheduled slices and arena blocks "
+        "that are not in use. The theorems of C01-C05/C12 do not depend on any option (their models take none), so they hold under every setting. "
+        "Tie: the C01-C05/C12 oracles re-run on API traces under a pairwise covering set of option settings (purge delay off/immediate/delayed with "
+        "a virtual clock advanced inside the traces, decommit or reset, eager/lazy commit, arena on/off/small, reclaim-on-free, segment target), "
+        "half of them on a -DMI_SECURE=1 build in which decommit revokes access so that any access to decommitted memory faults.",
+   note="NAMED PARTIAL: 'the allocator never reads or writes memory it has decommitted' is proved at mask level (live spans are committed, purge "
+        "bits never cover them) and otherwise observed through faults in the access-revoking build; mask soundness under purge when decommit "
+        "revokes access is an open statement (Proofs/OsOpen.v).",
+   technique="Coq proof over commit-mask/purge models + option-matrix traces with shadow oracles + access-revoking build",
+   design="3/C13"),
 }
 NOT_YET = {}
 def main():
